@@ -761,3 +761,514 @@ Proof.
   - inversion H1; auto.
   - apply gd_Nd. repeat split; auto; discriminate.
 Qed.
+
+(* ------------------------------------------------------------------ forests: induction, unfolding *)
+Definition optP (P : node -> Prop) (o : option node) : Prop := match o with Some n => P n | None => True end.
+
+Section NodeInd.
+  Variables (P : node -> Prop) (Q : packed -> Prop).
+  Hypothesis HT : forall ty v, P (TokN ty v).
+  Hypothesis HS : forall l fams, Forall Q fams -> P (SymN l fams).
+  Hypothesis HP : forall r lf rt, optP P lf -> optP P rt -> Q (Pack r lf rt).
+  Fixpoint node_ind2 (n : node) : P n :=
+    match n with
+    | TokN ty v => HT ty v
+    | SymN l fams =>
+        HS l fams ((fix go (fs : list packed) : Forall Q fs :=
+                      match fs with [] => Forall_nil _ | p :: r => Forall_cons _ (packed_ind2 p) (go r) end) fams)
+    end
+  with packed_ind2 (p : packed) : Q p :=
+    match p with
+    | Pack r lf rt =>
+        HP r lf rt
+           (match lf as o return optP P o with Some n => node_ind2 n | None => I end)
+           (match rt as o return optP P o with Some n => node_ind2 n | None => I end)
+    end.
+End NodeInd.
+
+Definition prule (p : packed) : xrule := match p with Pack r _ _ => r end.
+
+(* the children list handed to the rule callback / kept as a list under an intermediate parent *)
+Definition pchildren (p : packed) : list tree :=
+  match p with
+  | Pack _ l rt =>
+      (match l with Some ln => val_items (tn ln) | None => [] end) ++
+      (match rt with Some rn => [val_tree (tn rn)] | None => [] end)
+  end.
+
+Lemma tp_eq b p : tp b p = if b then VL (pchildren p) else VT (amb_cb (prule p) (pchildren p)).
+Proof. destruct p; reflexivity. Qed.
+
+Lemma tn_SymN l fams :
+  tn (SymN l fams) =
+    let data := map (tp (lbl_inter l)) fams in
+    if lbl_inter l
+    then match data with [d] => d | _ => VT (Nd IAMBIG (map (fun c => Nd INTER (val_items c)) data)) end
+    else VT (call_ambig (collapse_ambig (map val_tree data))).
+Proof. reflexivity. Qed.
+
+Lemma dn_SymN l fams :
+  dn (SymN l fams) =
+    flat_map (fun p => match l with
+                       | LSym _ => map (fun ks => [DNode (prule p) ks]) (dp p)
+                       | LInter _ _ => dp p
+                       end) fams.
+Proof.
+  simpl. induction fams as [|p fams IH]; simpl; auto.
+Qed.
+
+Lemma dp_eq r l rt :
+  dp (Pack r l rt) = app_product (match l with Some ln => dn ln | None => [[]] end)
+                                 (match rt with Some rn => dn rn | None => [[]] end).
+Proof. reflexivity. Qed.
+
+Lemma wfnb_SymN l fams : wfnb (SymN l fams) = nonnil fams && forallb (wfpb l) fams.
+Proof. reflexivity. Qed.
+
+Lemma shape_DNode r ks : shape (DNode r ks) = plain r (map shape ks).
+Proof. reflexivity. Qed.
+
+(* boolean equalities *)
+Lemma list_eqb_eq {A} (f : A -> A -> bool) : (forall a b, f a b = true -> a = b) ->
+  forall a b, list_eqb f a b = true -> a = b.
+Proof.
+  intros Hf a; induction a as [|x a IH]; intros [|y b] H; simpl in H; try discriminate; auto.
+  apply andb_true_iff in H. destruct H as (H1 & H2). f_equal; auto.
+Qed.
+
+Lemma esym_eqb_eq a b : esym_eqb a b = true -> a = b.
+Proof.
+  destruct a, b; unfold esym_eqb; simpl. rewrite !andb_true_iff. intros ((H1 & H2) & H3).
+  apply String.eqb_eq in H1. apply Bool.eqb_prop in H2. apply Bool.eqb_prop in H3. congruence.
+Qed.
+
+Lemma xrule_eqb_eq a b : xrule_eqb a b = true -> a = b.
+Proof.
+  destruct a, b; unfold xrule_eqb; simpl. rewrite !andb_true_iff. intros ((((((H1 & H2) & H3) & H4) & H5) & H6) & H7).
+  apply String.eqb_eq in H1. apply String.eqb_eq in H2. apply Bool.eqb_prop in H3. apply Bool.eqb_prop in H4.
+  apply Bool.eqb_prop in H5. apply (list_eqb_eq _ esym_eqb_eq) in H6. apply (list_eqb_eq _ Bool.eqb_prop) in H7.
+  congruence.
+Qed.
+
+Lemma rule_okb_names r : rule_okb r = true ->
+  names_ok r /\ (starts_us (x_origin r) = true -> esc_on r = false).
+Proof.
+  unfold rule_okb, names_ok. rewrite !andb_true_iff, !negb_true_iff, orb_true_iff, !negb_true_iff.
+  intros ((H1 & H2) & H3). repeat split; auto. intros E. destruct H3; congruence.
+Qed.
+
+(* ------------------------------------------------------------------ the invariant *)
+Definition POS (r : xrule) (l : list tree) : Prop :=
+  forall i, i < length l -> should_expand (nth i (x_exp r) dummy_sym) = true -> A2 (nth i l Nn).
+
+(* a tree tr standing for the derivations dr (each a singleton sequence) *)
+Definition TF (tr : tree) (dr : list (list dtree)) : Prop :=
+  gd tr /\ (forall t', X tr t' <-> exists d, In [d] dr /\ t' = shape d)
+  /\ dr <> [] /\ (forall ds, In ds dr -> exists d, ds = [d]).
+
+(* a children list cs of arity k under rule r standing for the derivation sequences dl *)
+Definition LF (r : xrule) (k : nat) (cs : list tree) (dl : list (list dtree)) : Prop :=
+  (forall l, In l (cil cs) -> Forall gd l /\ length l = k /\ POS r l) /\
+  (forall cs', (exists l, In l (cil cs) /\ XL l cs') <-> exists ds, In ds dl /\ cs' = map shape ds) /\
+  dl <> [].
+
+Lemma cil_snoc xs t : xs <> [] -> cil (xs ++ [t]) = map (fun l => l ++ [t]) (cil xs).
+Proof.
+  destruct xs as [|k0 rest]; [congruence|]. intros _. simpl.
+  destruct (is_iambig k0); auto. destruct (ci k0) as [|l0 col]; auto.
+  simpl. rewrite map_map, <- app_assoc. f_equal. apply map_ext. intros l. rewrite app_assoc. reflexivity.
+Qed.
+
+Lemma cil_single t : is_iambig t = false -> cil [t] = [[t]].
+Proof. intros H; simpl; rewrite H; auto. Qed.
+
+Lemma XL_snoc l t cs' : XL (l ++ [t]) cs' <-> exists a b, cs' = a ++ [b] /\ XL l a /\ X t b.
+Proof.
+  split.
+  - intros H. apply Forall2_app_inv_l' in H. destruct H as (a & b & -> & Ha & Hb).
+    inversion Hb as [|? y ? ? Hy Hn]; subst. inversion Hn; subst. eauto.
+  - intros (a & b & -> & Ha & Hb). apply Forall2_app; auto.
+Qed.
+
+Lemma app_product_nonempty {A} (xs ys : list (list A)) : xs <> [] -> ys <> [] -> app_product xs ys <> [].
+Proof.
+  destruct xs as [|x xs]; [congruence|]. destruct ys as [|y ys]; [congruence|]. intros _ _. simpl. discriminate.
+Qed.
+
+Lemma LF_single r tr dr :
+  TF tr dr -> (should_expand (nth 0 (x_exp r) dummy_sym) = true -> A2 tr) -> LF r 1 [tr] (app_product [[]] dr).
+Proof.
+  intros (Hgd & HX & Hne & Hs) HA. unfold LF. rewrite cil_single by (apply gd_not_iambig; auto). repeat split.
+  - destruct H as [<-|[]]. constructor; auto.
+  - destruct H as [<-|[]]. reflexivity.
+  - destruct H as [<-|[]]. intros i Hi Hse. simpl in Hi. assert (i = 0) by lia. subst. simpl. auto.
+  - intros (l & [<-|[]] & H). inversion H as [|? t' ? ? Ht Hn]; subst. inversion Hn; subst.
+    apply HX in Ht. destruct Ht as (d & Hd & ->). exists [d]. split; auto.
+    apply In_app_product. exists [], [d]. simpl; auto.
+  - intros (ds & Hds & ->). apply In_app_product in Hds. destruct Hds as (x & y & -> & [<-|[]] & Hy).
+    destruct (Hs _ Hy) as (d & ->). exists [tr]. split; [left; auto|]. simpl. constructor; [|constructor].
+    apply HX. eauto.
+  - apply app_product_nonempty; auto. discriminate.
+Qed.
+
+Lemma LF_snoc r k xs dl tr dr :
+  LF r k xs dl -> 1 <= k -> TF tr dr -> (should_expand (nth k (x_exp r) dummy_sym) = true -> A2 tr) ->
+  LF r (S k) (xs ++ [tr]) (app_product dl dr).
+Proof.
+  intros (L1 & L2 & L3) Hk (Hgd & HX & Hne & Hs) HA.
+  assert (Hxs : xs <> []).
+  { intros ->. destruct (L1 [] (or_introl eq_refl)) as (_ & Hl & _). simpl in Hl. lia. }
+  unfold LF. rewrite cil_snoc by auto. repeat split.
+  - apply in_map_iff in H. destruct H as (l0 & <- & Hl0). apply Forall_app. split. apply L1; auto. constructor; auto.
+  - apply in_map_iff in H. destruct H as (l0 & <- & Hl0). rewrite app_length. simpl.
+    destruct (L1 _ Hl0) as (_ & -> & _). lia.
+  - apply in_map_iff in H. destruct H as (l0 & <- & Hl0). destruct (L1 _ Hl0) as (_ & Hlen & Hpos).
+    intros i Hi Hse. rewrite app_length in Hi. simpl in Hi.
+    destruct (Nat.lt_ge_cases i (length l0)).
+    + rewrite app_nth1 by auto. apply Hpos; auto.
+    + assert (i = k) by lia. subst i. rewrite app_nth2 by lia. rewrite Hlen, Nat.sub_diag. simpl. auto.
+  - intros (l & Hl & Hx). apply in_map_iff in Hl. destruct Hl as (l0 & <- & Hl0).
+    apply XL_snoc in Hx. destruct Hx as (a & b & -> & Ha & Hb).
+    destruct (proj1 (L2 a)) as (ds & Hds & ->); eauto.
+    apply HX in Hb. destruct Hb as (d & Hd & ->).
+    exists (ds ++ [d]). split. apply In_app_product. eauto. rewrite map_app. reflexivity.
+  - intros (ds & Hds & ->). apply In_app_product in Hds. destruct Hds as (x & y & -> & Hx & Hy).
+    destruct (Hs _ Hy) as (d & ->).
+    destruct (proj2 (L2 (map shape x))) as (l0 & Hl0 & Hxl); eauto.
+    exists (l0 ++ [tr]). split. apply in_map_iff; eauto.
+    rewrite map_app. apply XL_snoc. exists (map shape x), (shape d). repeat split; auto. apply HX; eauto.
+  - apply app_product_nonempty; auto.
+Qed.
+
+Lemma LF_nil r : LF r 0 [] (app_product [[]] [[]]).
+Proof.
+  unfold LF. simpl. repeat split.
+  - destruct H as [<-|[]]; constructor.
+  - destruct H as [<-|[]]; reflexivity.
+  - destruct H as [<-|[]]. intros i Hi; simpl in Hi; lia.
+  - intros (l & [<-|[]] & H). inversion H; subst. exists []; simpl; auto.
+  - intros (ds & [<-|[]] & ->). exists []; split; simpl; auto. constructor.
+  - discriminate.
+Qed.
+
+(* facts about a node in right-child position *)
+Definition NIF (n : node) : Prop := tn n = VT (val_tree (tn n)) /\ TF (val_tree (tn n)) (dn n).
+
+Definition Pn (n : node) : Prop :=
+  wfnb n = true ->
+  match n with
+  | TokN _ _ => NIF n
+  | SymN (LSym a) _ => NIF n /\ (starts_us a = true -> A2 (val_tree (tn n)))
+  | SymN (LInter r k) _ => LF r k (val_items (tn n)) (dn n)
+  end.
+
+Definition arity (l : label) (r : xrule) : nat :=
+  match l with LSym _ => length (x_exp r) | LInter _ k => k end.
+
+Definition Qp (p : packed) : Prop :=
+  forall l, wfpb l p = true -> LF (prule p) (arity l (prule p)) (pchildren p) (dp p).
+
+Lemma Pn_TokN ty v : Pn (TokN ty v).
+Proof.
+  intros _. unfold NIF, TF. simpl. repeat split; try discriminate.
+  - intros H. apply X_Tk in H. subst. exists (DTok ty v). simpl; auto.
+  - intros (d & [E|[]] & ->). inversion E; subst. apply X_Tk; auto.
+  - intros ds [<-|[]]. eauto.
+Qed.
+
+Lemma right_child_facts s rn :
+  Pn rn -> wfnb rn = true -> sym_matches s rn = true ->
+  NIF rn /\ (should_expand s = true -> A2 (val_tree (tn rn))).
+Proof.
+  intros HP Hwf Hm. specialize (HP Hwf). destruct rn as [ty v|[a|r k] fams]; simpl in Hm.
+  - split; auto. intros _ Ha. discriminate.
+  - destruct HP as (H1 & H2). split; auto. intros Hse. apply H2.
+    apply andb_true_iff in Hm. destruct Hm as (_ & Hm). apply String.eqb_eq in Hm. subst.
+    unfold should_expand in Hse. apply andb_true_iff in Hse. tauto.
+  - discriminate.
+Qed.
+
+Lemma Qp_Pack r lf rt : optP Pn lf -> optP Pn rt -> Qp (Pack r lf rt).
+Proof.
+  intros Hl Hr l Hwf. simpl prule. unfold arity.
+  simpl in Hwf. apply andb_true_iff in Hwf. destruct Hwf as (Hwf0 & Hwf).
+  apply andb_true_iff in Hwf0. destruct Hwf0 as (Hok & Hlab).
+  set (k := match l with LSym _ => length (x_exp r) | LInter _ k0 => k0 end) in *.
+  destruct k as [|k'].
+  - destruct lf; [discriminate|]. destruct rt; [discriminate|]. simpl pchildren. rewrite dp_eq. apply LF_nil.
+  - apply andb_true_iff in Hwf. destruct Hwf as (Hrt & Hlf).
+    destruct rt as [rn|]; [|discriminate]. apply andb_true_iff in Hrt. destruct Hrt as (Hm & Hwr).
+    simpl in Hr. destruct (right_child_facts _ _ Hr Hwr Hm) as ((Htn & HTF) & HA).
+    rewrite dp_eq. destruct k' as [|k''].
+    + destruct lf; [discriminate|]. simpl pchildren. apply LF_single; auto.
+    + destruct lf as [ln|]; [|discriminate]. apply andb_true_iff in Hlf. destruct Hlf as (Hlab2 & Hwl).
+      destruct ln as [|[|r2 k2] fs]; try discriminate.
+      apply andb_true_iff in Hlab2. destruct Hlab2 as (Hr2 & Hk2).
+      apply xrule_eqb_eq in Hr2. apply Nat.eqb_eq in Hk2. subst r2 k2.
+      simpl in Hl. specialize (Hl Hwl). simpl pchildren.
+      apply LF_snoc; auto. lia.
+Qed.
+
+(* ------------------------------------------------------------------ symbol / intermediate nodes *)
+Lemma wfpb_inter_rule r k p : wfpb (LInter r k) p = true -> prule p = r.
+Proof.
+  destruct p as [r0 lf rt]. simpl. intros H. apply andb_true_iff in H. destruct H as (H1 & _).
+  apply andb_true_iff in H1. destruct H1 as (_ & H2). apply andb_true_iff in H2. destruct H2 as (H3 & _).
+  apply andb_true_iff in H3. destruct H3 as (H4 & _). apply xrule_eqb_eq in H4. auto.
+Qed.
+
+Lemma wfpb_rule_ok l p : wfpb l p = true -> rule_okb (prule p) = true.
+Proof.
+  destruct p as [r0 lf rt]. simpl. intros H. apply andb_true_iff in H. destruct H as (H1 & _).
+  apply andb_true_iff in H1. tauto.
+Qed.
+
+Lemma wfpb_sym_origin a p : wfpb (LSym a) p = true -> x_origin (prule p) = a.
+Proof.
+  destruct p as [r0 lf rt]. simpl. intros H. apply andb_true_iff in H. destruct H as (H1 & _).
+  apply andb_true_iff in H1. destruct H1 as (_ & H2). apply String.eqb_eq in H2. auto.
+Qed.
+
+Lemma val_items_tp_true p : val_items (tp true p) = pchildren p.
+Proof. rewrite tp_eq. reflexivity. Qed.
+
+Lemma cil_iambig_items (xss : list (list tree)) l : xss <> [] ->
+  (In l (cil [Nd IAMBIG (map (Nd INTER) xss)]) <-> exists xs, In xs xss /\ In l (cil xs)).
+Proof.
+  intros Hne.
+  assert (Hia : forall x, is_iambig (Nd IAMBIG x) = true) by reflexivity.
+  assert (Hci : ci (Nd IAMBIG (map (Nd INTER) xss)) = flat_map cil xss).
+  { rewrite ci_Nd. clear. induction xss as [|xs xss IH]; simpl; auto. rewrite IH. reflexivity. }
+  unfold cil at 1. rewrite Hia, Hci.
+  destruct (flat_map cil xss) as [|l0 col] eqn:E.
+  - exfalso. destruct xss as [|xs xss]; [congruence|]. simpl in E. apply app_eq_nil in E. destruct E as (E & _).
+    eapply cil_nonempty; eauto.
+  - rewrite <- E. rewrite in_map_iff. split.
+    + intros (x & <- & Hx). rewrite app_nil_r. apply in_flat_map in Hx. exact Hx.
+    + intros Hx. exists l. rewrite app_nil_r. split; auto. apply in_flat_map. exact Hx.
+Qed.
+
+Lemma tn_inter_multi lb p1 p2 fams : lbl_inter lb = true ->
+  val_items (tn (SymN lb (p1 :: p2 :: fams))) = [Nd IAMBIG (map (Nd INTER) (map pchildren (p1 :: p2 :: fams)))].
+Proof.
+  intros Hi. rewrite tn_SymN. cbv zeta. rewrite Hi. simpl. rewrite !val_items_tp_true. do 4 f_equal.
+  rewrite !map_map. apply map_ext. intros p. rewrite val_items_tp_true. reflexivity.
+Qed.
+
+Lemma cil_inter_items lb fams l : lbl_inter lb = true -> fams <> [] ->
+  (In l (cil (val_items (tn (SymN lb fams)))) <-> exists p, In p fams /\ In l (cil (pchildren p))).
+Proof.
+  intros Hi Hne.
+  destruct fams as [|p1 [|p2 fams]]; [congruence| |].
+  - rewrite tn_SymN. cbv zeta. rewrite Hi. simpl map. cbv iota. rewrite val_items_tp_true. split.
+    + intros H; exists p1; split; simpl; auto.
+    + intros (p & [<-|[]] & H); auto.
+  - rewrite tn_inter_multi by auto. rewrite cil_iambig_items by discriminate. split.
+    + intros (xs & Hxs & Hl). apply in_map_iff in Hxs. destruct Hxs as (p & <- & Hp). eauto.
+    + intros (p & Hp & Hl). exists (pchildren p). split; auto. apply in_map; auto.
+Qed.
+
+Lemma Pn_SymN l fams : Forall Qp fams -> Pn (SymN l fams).
+Proof.
+  intros HQ Hwf. rewrite wfnb_SymN in Hwf. apply andb_true_iff in Hwf. destruct Hwf as (Hnn & Hwf).
+  rewrite forallb_forall in Hwf. rewrite Forall_forall in HQ.
+  assert (Hne : fams <> []) by (destruct fams; [discriminate | congruence]).
+  destruct l as [a|r k].
+  - (* symbol node *)
+    assert (Htn : tn (SymN (LSym a) fams)
+                  = VT (call_ambig (collapse_ambig (map (fun p => amb_cb (prule p) (pchildren p)) fams)))).
+    { rewrite tn_SymN. cbv zeta. simpl lbl_inter. cbv iota. rewrite map_map. do 3 f_equal.
+      apply map_ext. intros p. rewrite tp_eq. reflexivity. }
+    set (ts := map (fun p => amb_cb (prule p) (pchildren p)) fams) in *.
+    assert (HLF : forall p, In p fams -> LF (prule p) (length (x_exp (prule p))) (pchildren p) (dp p)).
+    { intros p Hp. apply (HQ p Hp (LSym a)). auto. }
+    assert (Hnames : forall p, In p fams -> names_ok (prule p) /\ (starts_us a = true -> esc_on (prule p) = false)).
+    { intros p Hp. pose proof (wfpb_rule_ok _ _ (Hwf p Hp)) as Hok. apply rule_okb_names in Hok.
+      rewrite (wfpb_sym_origin _ _ (Hwf p Hp)) in Hok. auto. }
+    assert (Hgd : Forall gd ts).
+    { apply Forall_forall. intros t Ht. apply in_map_iff in Ht. destruct Ht as (p & <- & Hp).
+      apply gd_amb_cb. apply Hnames; auto. intros l0 Hl0. apply (HLF p Hp); auto. }
+    assert (HX : forall p t', In p fams ->
+              (X (amb_cb (prule p) (pchildren p)) t' <-> exists ds, In ds (dp p) /\ t' = shape (DNode (prule p) ds))).
+    { intros p t' Hp. destruct (HLF p Hp) as (L1 & L2 & L3).
+      rewrite amb_cb_X.
+      - split.
+        + intros (l0 & l' & Hl0 & Hxl & ->). destruct (proj1 (L2 l')) as (ds & Hds & ->); eauto.
+        + intros (ds & Hds & ->). destruct (proj2 (L2 (map shape ds))) as (l0 & Hl0 & Hxl); eauto.
+      - apply Hnames; auto.
+      - intros l0 Hl0. destruct (L1 _ Hl0) as (G & Hlen & Hpos). split. apply Forall_gd_ne; auto.
+        intros i Hi. apply inlined_props in Hi. destruct Hi as (Hi1 & Hi2 & _). apply Hpos; auto. lia. }
+    split.
+    + unfold NIF. rewrite Htn. simpl val_tree. split; auto. unfold TF. repeat split.
+      * apply gd_call_collapse; auto. unfold ts. destruct fams; [congruence|discriminate].
+      * intros H. apply X_call_collapse in H. destruct H as (t & Ht & Hx). apply in_map_iff in Ht.
+        destruct Ht as (p & <- & Hp). apply HX in Hx; auto. destruct Hx as (ds & Hds & ->).
+        exists (DNode (prule p) ds). split; auto. rewrite dn_SymN. apply in_flat_map. exists p; split; auto.
+        apply in_map_iff. eauto.
+      * intros (d & Hd & ->). rewrite dn_SymN in Hd. apply in_flat_map in Hd. destruct Hd as (p & Hp & Hd).
+        apply in_map_iff in Hd. destruct Hd as (ds & E & Hds). inversion E; subst.
+        apply X_call_collapse. exists (amb_cb (prule p) (pchildren p)). split. apply in_map_iff; eauto.
+        apply HX; eauto.
+      * rewrite dn_SymN. destruct fams as [|p fams]; [congruence|]. simpl. intros E. apply app_eq_nil in E. destruct E as (E & _).
+        apply map_eq_nil in E. destruct (HLF p (or_introl eq_refl)) as (_ & _ & L3). auto.
+      * intros ds Hds. rewrite dn_SymN in Hds. apply in_flat_map in Hds. destruct Hds as (p & Hp & Hd).
+        apply in_map_iff in Hd. destruct Hd as (ks & <- & _). eauto.
+    + (* depth of nested _ambig for inlined symbols *)
+      intros Hus. rewrite Htn. simpl val_tree.
+      assert (HA2 : Forall A2 ts).
+      { apply Forall_forall. intros t Ht. apply in_map_iff in Ht. destruct Ht as (p & <- & Hp).
+        destruct (Hnames p Hp) as ((Hn1 & _) & Hesc). specialize (Hesc Hus).
+        assert (Hplain : forall l0, A0 (plain (prule p) l0)).
+        { intros l0. unfold plain. rewrite Hesc. unfold A0. rewrite is_ambig_Nd. auto. }
+        assert (Hf1 : forall l0, A1 (match ae_spec (prule p) with [] => plain (prule p) | n :: l1 => ae (n :: l1) (plain (prule p)) end l0)).
+        { intros l0. destruct (ae_spec (prule p)). apply A0_A1; auto.
+          unfold ae. destruct (ae_any _ _ _). intros _. simpl. apply Forall_forall. intros x Hx.
+          apply in_map_iff in Hx. destruct Hx as (f & <- & _). auto. apply A0_A1; auto. }
+        unfold amb_cb, aie. destruct (pchildren p) as [|c0 rest]. apply A1_A2; auto.
+        destruct (is_iambig c0); [|apply A1_A2; auto].
+        destruct (ci c0) as [|l0 col]; [apply A1_A2; auto|].
+        intros _. simpl. constructor; auto. apply Forall_forall. intros x Hx. apply in_map_iff in Hx.
+        destruct Hx as (f & <- & _). auto. }
+      assert (HA1 : Forall A1 (collapse_ambig ts)).
+      { unfold collapse_ambig. apply Forall_forall. intros x Hx. apply in_flat_map in Hx. destruct Hx as (t & Ht & Hx).
+        rewrite Forall_forall in HA2. specialize (HA2 _ Ht). destruct (is_ambig t) eqn:Ha.
+        - specialize (HA2 Ha). rewrite Forall_forall in HA2; auto.
+        - destruct Hx as [<-|[]]. apply A0_A1; auto. }
+      unfold call_ambig. destruct (collapse_ambig ts) as [|x [|y rest]].
+      * intros _; constructor.
+      * inversion HA1; subst. apply A1_A2; auto.
+      * intros _. simpl. auto.
+  - (* intermediate node *)
+    assert (HLF : forall p, In p fams -> LF r k (pchildren p) (dp p)).
+    { intros p Hp. pose proof (HQ p Hp (LInter r k) (Hwf p Hp)) as H.
+      rewrite (wfpb_inter_rule _ _ _ (Hwf p Hp)) in H. exact H. }
+    assert (Hcil : forall l0, In l0 (cil (val_items (tn (SymN (LInter r k) fams))))
+                              <-> exists p, In p fams /\ In l0 (cil (pchildren p))).
+    { intros l0. apply cil_inter_items; auto. }
+    unfold LF. repeat split.
+    + apply Hcil in H. destruct H as (p & Hp & Hl). apply (HLF p Hp); auto.
+    + apply Hcil in H. destruct H as (p & Hp & Hl). apply (HLF p Hp); auto.
+    + apply Hcil in H. destruct H as (p & Hp & Hl). apply (HLF p Hp); auto.
+    + intros (l0 & Hl0 & Hx). apply Hcil in Hl0. destruct Hl0 as (p & Hp & Hl).
+      destruct (HLF p Hp) as (_ & L2 & _). destruct (proj1 (L2 cs')) as (ds & Hds & ->); eauto.
+      exists ds; split; auto. rewrite dn_SymN. apply in_flat_map. eauto.
+    + intros (ds & Hds & ->). rewrite dn_SymN in Hds. apply in_flat_map in Hds. destruct Hds as (p & Hp & Hds).
+      destruct (HLF p Hp) as (_ & L2 & _). destruct (proj2 (L2 (map shape ds))) as (l0 & Hl0 & Hx); eauto.
+      exists l0; split; auto. apply Hcil. eauto.
+    + rewrite dn_SymN. destruct fams as [|p fams]; [congruence|]. simpl. intros E. apply app_eq_nil in E. destruct E as (E & _).
+      destruct (HLF p (or_introl eq_refl)) as (_ & _ & L3). auto.
+Qed.
+
+Theorem Pn_all n : Pn n.
+Proof.
+  apply (node_ind2 Pn Qp). apply Pn_TokN. apply Pn_SymN. apply Qp_Pack.
+Qed.
+
+(* ------------------------------------------------------------------ layer B: the theorems *)
+Lemma root_okb_sym n : root_okb n = true -> exists a fams, n = SymN (LSym a) fams /\ wfnb n = true.
+Proof. destruct n as [|[a|] fams]; simpl; try discriminate. eauto. Qed.
+
+Lemma root_NIF n : root_okb n = true -> NIF n.
+Proof.
+  intros H. destruct (root_okb_sym n H) as (a & fams & -> & Hwf). apply (Pn_all _ Hwf).
+Qed.
+
+Lemma In_derivs n d : (forall ds, In ds (dn n) -> exists d0, ds = [d0]) -> (In d (derivs n) <-> In [d] (dn n)).
+Proof.
+  intros Hs. unfold derivs. rewrite in_concat. split.
+  - intros (ds & Hds & Hd). destruct (Hs _ Hds) as (d0 & ->). destruct Hd as [<-|[]]. auto.
+  - intros H. exists [d]; simpl; auto.
+Qed.
+
+Theorem B_expand_exact n : root_okb n = true ->
+  forall t, In t (expand (to_tree_explicit n)) <-> In t (map shape (derivs n)).
+Proof.
+  intros H t. destruct (root_NIF n H) as (_ & (_ & HX & _ & Hs)). unfold to_tree_explicit.
+  change (In t (expand (val_tree (tn n)))) with (X (val_tree (tn n)) t). rewrite HX, in_map_iff. split.
+  - intros (d & Hd & ->). exists d; split; auto. apply In_derivs; auto.
+  - intros (d & <- & Hd). exists d; split; auto. apply In_derivs; auto.
+Qed.
+
+(* the explicit tree has no '_iambig' left and no '_ambig' without alternatives; the forest has a derivation *)
+Theorem B_tree_tidy n : root_okb n = true -> gdb (to_tree_explicit n) = true /\ derivs n <> [].
+Proof.
+  intros H. destruct (root_NIF n H) as (_ & (Hgd & _ & Hne & Hs)). split. exact Hgd.
+  destruct (dn n) as [|ds dl] eqn:E; [congruence|]. destruct (Hs ds (or_introl eq_refl)) as (d & ->).
+  unfold derivs. rewrite E. simpl. discriminate.
+Qed.
+
+(* CollapseAmbiguities *)
+Fixpoint cl (isamb : bool) (rs : list (res (list tree))) : res (list (list tree)) :=
+  match rs with
+  | [] => Ok []
+  | r :: rest =>
+      rbind r (fun a =>
+        match a with
+        | [] => if isamb then rbind (cl isamb rest) (fun b => Ok (a :: b)) else AssertFail
+        | _ => rbind (cl isamb rest) (fun b => Ok (a :: b))
+        end)
+  end.
+
+Lemma collapse_Nd d ks :
+  collapse (Nd d ks) =
+    rbind (cl (String.eqb d AMBIG) (map collapse ks))
+          (fun ls => if String.eqb d AMBIG then Ok (List.concat ls) else Ok (map (Nd d) (product ls))).
+Proof.
+  simpl. f_equal. induction ks as [|k ks IH]; simpl; auto. rewrite IH. reflexivity.
+Qed.
+
+Lemma cl_ok isamb ks ls :
+  Forall (fun k => forall l, collapse k = Ok l -> l = expand k) ks ->
+  cl isamb (map collapse ks) = Ok ls -> ls = map expand ks.
+Proof.
+  intros H; revert ls; induction H as [|k ks Hk _ IH]; simpl; intros ls E.
+  - inversion E; auto.
+  - destruct (collapse k) as [a| |] eqn:Ek; simpl in E; try discriminate.
+    rewrite (Hk a eq_refl) in *.
+    assert (E' : rbind (cl isamb (map collapse ks)) (fun b => Ok (expand k :: b)) = Ok ls).
+    { destruct (expand k); auto. destruct isamb; auto. discriminate. }
+    destruct (cl isamb (map collapse ks)) as [b| |]; simpl in E'; try discriminate.
+    inversion E'; subst. f_equal. apply IH; auto.
+Qed.
+
+Theorem collapse_ok_is_expand t l : collapse t = Ok l -> l = expand t.
+Proof.
+  revert l. induction t as [ty v| |d ks IH] using tree_ind2; intros l E.
+  - inversion E; auto. - inversion E; auto.
+  - rewrite collapse_Nd in E. destruct (cl (String.eqb d AMBIG) (map collapse ks)) as [ls| |] eqn:Ec; simpl in E; try discriminate.
+    apply cl_ok in Ec; auto. subst ls. rewrite expand_Nd. destruct (String.eqb d AMBIG); inversion E; auto.
+Qed.
+
+Lemma inh_expand_nonempty t : inh t -> expand t <> [].
+Proof. intros (t' & H) E. unfold X in H. rewrite E in H. destruct H. Qed.
+
+Theorem collapse_total t : noempty t = true -> collapse t = Ok (expand t).
+Proof.
+  induction t as [ty v| |d ks IH] using tree_ind2; intros Hne; auto.
+  rewrite collapse_Nd, expand_Nd. pose proof (ne_kids _ _ Hne) as Hk.
+  assert (E : cl (String.eqb d AMBIG) (map collapse ks) = Ok (map expand ks)).
+  { clear Hne. induction IH as [|k ks Hk1 _ IH2]; simpl; auto. inversion Hk; subst.
+    rewrite (Hk1 H1). simpl. rewrite (IH2 H2). simpl.
+    destruct (expand k) eqn:Ek; auto. exfalso. apply (inh_expand_nonempty k); auto. apply ne_inh; auto. }
+  rewrite E. simpl. destruct (String.eqb d AMBIG); auto.
+Qed.
+
+Theorem collapse_explicit n : root_okb n = true ->
+  collapse (to_tree_explicit n) = Ok (expand (to_tree_explicit n)).
+Proof.
+  intros H. apply collapse_total. apply gd_ne. apply B_tree_tidy; auto.
+Qed.
+
+(* F6 / F6b: the utility as it was in the snapshot fails on None placeholders (witness trees are the explicit
+   trees of  start: [A] b / b: A? "c"  on "ac"  and of  start: q A / ?q: [A] | b / b: B*  on "a") *)
+Definition f6_tree : tree :=
+  Nd "start" [Nn; Nd AMBIG [Nd "b" [Tk "A" "a"; Tk "C" "c"]]].
+Definition f6b_tree : tree :=
+  Nd "start" [Nd AMBIG [Nd "b" []; Nn]; Tk "A" "a"].
+
+Theorem collapse_none_refuted :
+  collapse_old false false f6_tree = AssertFail /\ expand f6_tree = [Nd "start" [Nn; Nd "b" [Tk "A" "a"; Tk "C" "c"]]]
+  /\ collapse_old true false f6b_tree = AssertFail
+  /\ expand f6b_tree = [Nd "start" [Nd "b" []; Tk "A" "a"]; Nd "start" [Nn; Tk "A" "a"]]
+  /\ collapse f6_tree = Ok (expand f6_tree) /\ collapse f6b_tree = Ok (expand f6b_tree).
+Proof. repeat split; vm_compute; reflexivity. Qed.
